@@ -20,3 +20,9 @@ def run(env, rep):
     rep.floor("C03.R1.functions", "functions reachable from the network entry points", len(bodies), 70)
     loops.loop_progress(env, rep, "C03.R2", bodies)
     loops.allocation_sizes(env, rep, "C03.R3", bodies)
+    # R4: the cross-function argument behind the reviewed debug_assert sites of user_control (the decoder builds Some(timestamp) for
+    # ping events, so the echoed value is Some) is a rule of C13 R2; it is checked here under this property's name
+    from ..framework import PrefixReport, wants
+    if wants(rep, "C03.R4"):
+        from . import C13
+        C13.run(env, PrefixReport(rep, "C13.R2", "C03.R4", only=("C13.R2",)))
